@@ -1,6 +1,6 @@
 #!/bin/bash
 # seedrun.sh <patch.diff> <ID> [<ID>...] : apply a seeded change to /repo, run the quick checks, undo it.
-P=$1; shift
+P=$(realpath "$1"); shift
 cd /repo && git apply "$P" || { echo "patch does not apply"; exit 2; }
 cd /verif
 for id in "$@"; do python3 tools/check.py $id --tier quick 2>/dev/null | grep -E "^(VIOLATION|KNOWN|property=)" ; done
